@@ -83,6 +83,25 @@ def check_read(uri, coll, label="", deep=True, cooler_obj=None):
                     ms = c.matrix(field=col, balance=False, sparse=True)[:]
                     if not _eq_arrays(ms.toarray(), want):
                         errs.append("sparse matrix(%s) differs from model" % col)
+            if deep and not errs and coll.nbins:
+                # by-chromosome access (the chromosome index): a few chromosomes, first and last included
+                ch_ids = coll.bins["chrom"].values
+                idx = sorted(set(list(range(min(3, len(coll.chromnames)))) + [len(coll.chromnames) - 1]))
+                want0 = coll.dense("count") if "count" in coll.value_columns and len(coll.chromnames) <= 50 else None
+                for ci in idx:
+                    rows = np.flatnonzero(ch_ids == ci)
+                    if not len(rows):
+                        continue
+                    lo, hi = int(rows[0]), int(rows[-1]) + 1
+                    nm = coll.chromnames[ci]
+                    ext = tuple(int(x) for x in c.extent(nm))
+                    if ext != (lo, hi):
+                        errs.append("extent(%r) = %r, the model's bins of that chromosome are [%d, %d)" % (nm, ext, lo, hi))
+                        continue
+                    if want0 is not None and "count" not in getattr(coll, "approx_cols", ()):
+                        sub = c.matrix(balance=False).fetch(nm)
+                        if not _eq_arrays(sub, want0[lo:hi, lo:hi]):
+                            errs.append("matrix().fetch(%r) differs from the model's block" % (nm,))
             info = c.info
             if info.get("metadata") != coll.metadata:
                 errs.append("metadata %r != %r" % (info.get("metadata"), coll.metadata))
